@@ -78,7 +78,18 @@ def generate(rnd, tier):
         import random as _random
         rnd = _random.Random(rnd.getrandbits(48))
     term, vals = T.gen_case_term(rnd)
-    return {"term": term, "vals": vals, "style": rnd.randint(0, len(STYLES) - 1), "rseed": rnd.randint(0, 10 ** 6)}
+    case = {"term": term, "vals": vals, "style": rnd.randint(0, len(STYLES) - 1), "rseed": rnd.randint(0, 10 ** 6)}
+    # a second instantiation of the same atom for the history routes (same formula object, trees that share node ids
+    # with the first ones, as ISLa's replace_path / repair / mutate produce them); numerals stay numerals so that
+    # str.to.int stays inside the domain
+    vals2 = {}
+    for n in sorted(vals):
+        v = T.gen_value(rnd)
+        if _re.fullmatch(r"[+-]?[0-9]+", vals[n]) and not _re.fullmatch(r"[+-]?[0-9]+", v):
+            v = T._pick(rnd, T.NUMS)
+        vals2[n] = v
+    case["vals2"] = vals2
+    return case
 
 
 # ---------------------------------------------------------------------------------------------
@@ -419,8 +430,60 @@ def _judge(case):
                 except Exception as ex:
                     obs["evaluate"] = "raises:" + type(ex).__name__
 
+    # R4/R5: history -- the SAME formula objects judged again on a second instantiation whose trees share node ids
+    # with the first ones (replace_path keeps the ids of all ancestors of the replaced node: repair, mutate and the
+    # solver's own tree updates produce such trees), then once more on the first instantiation.  The oracle is Z3 on
+    # the second ground term; a fresh-id evaluation only tells a history effect from a plain wrong verdict (which the
+    # routes above report when that term is drawn).
+    hist = []
+    vals2 = case.get("vals2")
+    if vals2 and names and sorted(vals2) == names and vals2 != vals and T.in_domain(term, vals2) \
+            and not any(("<" in v and ">" in v) for v in vals2.values()):
+        try:
+            exp2 = T.oracle_verdict(term, vals2, ORACLE_TIMEOUT_MS)
+        except z3.Z3Exception:
+            exp2 = None
+        if exp2 is not None:
+            labels.append("history")
+
+            def ev(fm, tr, gr):
+                try:
+                    return _tv(evaluate(fm, tr, gr))
+                except Exception as ex:
+                    return "raises:" + type(ex).__name__
+
+            if isinstance(obs.get("evaluate"), bool):
+                grammar2 = dict(grammar)
+                for n in names:
+                    grammar2["<%s>" % n] = [vals[n], vals2[n]] if vals[n] != vals2[n] else [vals[n]]
+                tree2 = tree
+                for i, n in enumerate(names):
+                    tree2 = tree2.replace_path((i, 0), DerivationTree(vals2[n], []))
+                got2 = ev(formula, tree2, grammar2)          # ids of <start> and of every <vN> node are those of `tree`
+                got1 = ev(formula, tree, grammar2)           # and back
+                fresh2 = ev(formula, DerivationTree("<start>", [DerivationTree("<%s>" % n, [DerivationTree(vals2[n], [])]) for n in names]), grammar2)
+                labels.append("history:evaluate")
+                if got2 is not None and got2 != exp2 and fresh2 == exp2:
+                    hist.append(("history:verdict_depends_on_earlier_instantiation:evaluate", {"second": got2, "fresh": fresh2, "z3": exp2}))
+                if got1 is not None and got1 != exp and obs["evaluate"] == exp:
+                    hist.append(("history:verdict_changes_on_repetition:evaluate", {"first": obs["evaluate"], "again": got1, "z3": exp}))
+            if isinstance(obs.get("substitute"), bool):
+                try:
+                    trees2 = {vs[n]: DerivationTree("<%s>" % n, leafs(vals2[n]), id=trees[vs[n]].id) for n in names}
+                    g2 = f.substitute_expressions(trees2)
+                    got2 = bool(g2.is_true) if isinstance(g2, language.SMTFormula) and (g2.is_true or g2.is_false) and not g2.free_variables() else None
+                    fr = f.substitute_expressions({vs[n]: DerivationTree("<%s>" % n, leafs(vals2[n])) for n in names})
+                    fresh2 = bool(fr.is_true) if isinstance(fr, language.SMTFormula) and (fr.is_true or fr.is_false) and not fr.free_variables() else None
+                except Exception as ex:
+                    got2 = fresh2 = None
+                labels.append("history:substitute")
+                if got2 is not None and got2 != exp2 and fresh2 == exp2:
+                    hist.append(("history:verdict_depends_on_earlier_instantiation:substitute", {"second": got2, "fresh": fresh2, "z3": exp2}))
+
     # compare
     viol = {}
+    for sig, d in hist:
+        viol[sig] = {"sig": sig, "detail": d, "ground": ground_text[:400], "second_ground": T.to_smt(term, vals2)[:400], "isla_text": text}
     inconcl = None
     bad_routes = []
     for route, got in obs.items():
